@@ -32,6 +32,10 @@ CLAIMED = {
          'verify is modelled generically over an alias table and a mode chain; tables_wf (decide) re-checks on every run that the tables found in the code are well-formed (each deprecated name is itself reset to a falsy value after being copied, names distinct); C19_alias, C19_nothing_lost, C19_idempotent, C19_modes are proved for every well-formed table and every description; C19_slots_to_old / C19_slots_to_new prove index preservation per conversion, C19_roundtrip_witness exhibits the recorded finding (new -> old -> new raises); C19_transport proves the composition order of the function encoding under the codec hypotheses. The driver evaluates verify through a tabulated fold proved equal (C19_driver_sound).',
          'Trusted: Lean kernel (propext, Quot.sound via funext), AST translator, harness; dill/pickle/msgpack and ru.TypedDict are environment (sampled); floats dyadic. KNOWN FINDING F-C19-slots-roundtrip (recorded, not repaired).',
          'DESIGN.md section 6 C19'),
+ 'C12': ('Lean 4 proof (counting conservation law over all callback histories, membership lemmas for the round-robin and backfilling placement loops) + sampled differential tie of rrStep/bfStep to the real RoundRobin/Backfilling objects',
+         'C12_conservation/C12_once prove for every history of atomic scheduler callbacks (submissions with and without named pilots, add/remove incl. re-add, state notifications) that with unique uids every task is forwarded at most once, never both forwarded and waiting, and is never lost; C12_named, C12_early_flush, C12_waits, C12_eligible, C12_removed_gone give the binding clauses (named pilot, waiting, only pilots in _pids, removed pilots leave _pids); C12_bf_window proves that a backfilling pass only assigns to ADDED pilots inside the state window and below their high-water mark. The round-robin balance clause and the backfilling usage-returns-to-zero clause are checked by the monitor on the real code and by the exact model/implementation comparison, not yet by a theorem (partial).',
+         'Trusted: Lean kernel, harness; callbacks are atomic (they run under the component locks); _assign_pilot does not raise; add_pilots dicts carry the state already known; conservation for backfilling and RR balance not yet proved in Lean.',
+         'DESIGN.md section 6 C12'),
 }
 
 NOT_YET = {}
